@@ -600,6 +600,81 @@ fn gen_run_tree(expect: &mut Vec<([u8; 4], u16, Vec<u8>, u32)>) -> Tree {
     }
 }
 
+/// A runnable description that consists of a ping_pong pair: the starter sends a counter of 255,
+/// each side answers with the counter minus one, the side that reaches zero ends the run. The two
+/// applications are wired by name or by address; `expect` gets (receiver ip, port, first payload octet).
+fn gen_pingpong_tree(expect: &mut Vec<([u8; 4], u16, u8)>) -> Tree {
+    let n_nets = 1 + sim::choose(2) as usize;
+    let mut nets = vec![];
+    for k in 0..n_nets {
+        let ips = if sim::chance(1, 3) {
+            vec![vec![(s("subnet"), format!("123.45.{}.0/26", 60 + k))]]
+        } else {
+            vec![vec![(s("range"), format!("123.45.{}.1-40", 60 + k))]]
+        };
+        nets.push(TNet { id: format!("{}", 3 + 4 * k), ips });
+    }
+    let net = sim::choose(n_nets as u64) as usize;
+    let ip = [[123, 45, 60 + net as u8, 2 + sim::choose(10) as u8], [123, 45, 60 + net as u8, 20 + sim::choose(10) as u8]];
+    let ports = [*[0xbeefu16, 1, 4242].get(sim::choose(3) as usize).unwrap(), *[0xfaceu16, 2, 4243].get(sim::choose(3) as usize).unwrap()];
+    // ARP: both machines or neither (0 none, 1 explicit, 2 auto-protocol='true', 3 explicit auto-protocol='false')
+    let arp = sim::chance(1, 2);
+    let names = ["ping", "pong"];
+    // which side starts: the first or the second machine of the pair
+    let starter = sim::choose(2) as usize;
+    let mut machines = vec![];
+    for i in 0..2usize {
+        let mode = if arp { 1 + sim::choose(2) } else { 3 * sim::choose(2) };
+        let mut opts = vec![(s("name"), s(names[i]))];
+        if mode == 2 {
+            opts.push((s("auto-protocol"), s("true")));
+        }
+        if mode == 3 {
+            opts.push((s("auto-protocol"), s("false")));
+        }
+        let mut protocols = vec![vec![(s("name"), s("IPv4"))], vec![(s("name"), s("UDP"))]];
+        if mode == 1 {
+            protocols.push(vec![(s("name"), s("ARP"))]);
+        }
+        let o = 1 - i;
+        let to = if sim::chance(1, 2) { s(names[o]) } else { format!("{}.{}.{}.{}", ip[o][0], ip[o][1], ip[o][2], ip[o][3]) };
+        let fmt_port = |p: u16| if sim::chance(1, 2) { format!("{p}") } else { format!("0x{p:x}") };
+        let mut order = [0u8, 1, 2];
+        for k in (1..3).rev() {
+            order.swap(k, sim::choose(k as u64 + 1) as usize);
+        }
+        machines.push(TMachine {
+            opts,
+            nets: vec![vec![(s("id"), nets[net].id.clone())]],
+            protocols,
+            apps: vec![vec![
+                (s("name"), s("ping_pong")),
+                (s("starter"), s(if i == starter { *["true", "t", "True"].get(sim::choose(3) as usize).unwrap() } else { *["false", "f"].get(sim::choose(2) as usize).unwrap() })),
+                (s("ip"), format!("{}.{}.{}.{}", ip[i][0], ip[i][1], ip[i][2], ip[i][3])),
+                (s("to"), to),
+                (s("local_port"), fmt_port(ports[i])),
+                (s("remote_port"), fmt_port(ports[o])),
+            ]],
+            order,
+        });
+    }
+    // counter 255 goes to the machine that does not start, 254 comes back, ... 1 is the last datagram
+    for c in (1..=255u32).rev() {
+        let to = if (255 - c) % 2 == 0 { 1 - starter } else { starter };
+        expect.push((ip[to], ports[to], c as u8));
+    }
+    if sim::chance(1, 2) {
+        machines.swap(0, 1);
+    }
+    Tree {
+        nets,
+        machines,
+        style: sim::choose(4) as u8,
+        machines_first: false,
+        mutation: None,
+    }
+}
+
 impl E2Run for Run {
     fn id(&self) -> &'static str {
         "C19"
@@ -608,7 +683,8 @@ impl E2Run for Run {
     fn run(&self, case: &E2Case, _opts: &RunOpts) -> Outcome {
         let expect: std::sync::Arc<std::sync::Mutex<Vec<([u8; 4], u16, Vec<u8>, u32)>>> = Default::default();
         let text_cell: std::sync::Arc<std::sync::Mutex<String>> = Default::default();
-        let (e2, t2) = (expect.clone(), text_cell.clone());
+        let expect_pp: std::sync::Arc<std::sync::Mutex<Vec<([u8; 4], u16, u8)>>> = Default::default();
+        let (e2, t2, e3) = (expect.clone(), text_cell.clone(), expect_pp.clone());
         let (status, state) = sim::run_sim(case, default_cfg(), move || async move {
             draw_scheduler_knobs();
             let delay_pm = *[0u64, 300].get(sim::choose(2) as usize).unwrap();
@@ -620,7 +696,16 @@ impl E2Run for Run {
                 }
             });
             let mut ex = vec![];
-            let tree = gen_run_tree(&mut ex);
+            // one description in eight is a ping_pong pair (its end of run is the counter reaching zero)
+            let tree = if sim::chance(1, 8) {
+                sim::count("probe_ping_pong_description");
+                let mut pp = vec![];
+                let t = gen_pingpong_tree(&mut pp);
+                *e3.lock().unwrap() = pp;
+                t
+            } else {
+                gen_run_tree(&mut ex)
+            };
             let text = render(&tree);
             *e2.lock().unwrap() = ex;
             *t2.lock().unwrap() = text.clone();
@@ -651,6 +736,27 @@ impl E2Run for Run {
         }
         // every described message was on the wire, addressed to the described receiver
         let ipv4 = TypeId::of::<Ipv4>();
+        // ping_pong: the counters 255, 254, ... 1 went back and forth in this order, each to the described party
+        {
+            let pp = expect_pp.lock().unwrap();
+            if !pp.is_empty() {
+                let seen: Vec<([u8; 4], u16, u8)> = state
+                    .frames
+                    .iter()
+                    .filter(|f| f.protocol == ipv4 && f.bytes.len() == 29 && f.bytes[9] == 17)
+                    .map(|f| ([f.bytes[16], f.bytes[17], f.bytes[18], f.bytes[19]], u16::from_be_bytes([f.bytes[22], f.bytes[23]]), f.bytes[28]))
+                    .collect();
+                out.add("described_messages", pp.len() as u64);
+                if seen != *pp {
+                    let at = (0..pp.len().min(seen.len())).find(|i| seen[*i] != pp[*i]).unwrap_or(pp.len().min(seen.len()));
+                    out.violate(Violation::new(
+                        "ping-pong",
+                        if seen.len() < pp.len() { "exchange-incomplete" } else { "exchange-differs" },
+                        format!("the described ping_pong exchange is 255 datagrams with counters 255..1; {} datagrams appeared on the wire, first difference at position {at}: expected {:?}, seen {:?}:\n{excerpt}", seen.len(), pp.get(at), seen.get(at)),
+                    ));
+                }
+            }
+        }
         for (ip, port, payload, count) in expect.lock().unwrap().iter() {
             let n = state
                 .frames
@@ -680,11 +786,11 @@ impl E2Run for Run {
         ScenarioInfo {
             engine: "E2 netsim".into(),
             level: "exploration".into(),
-            rule: "one run = a generated runnable description (1..2 networks with range/ip pools, 1..3 capture machines - counted captures in one factory, or one message-type capture - and 1..4 send_message machines with counts 1..5 wired by name or by address, a quarter of them through a forward machine, pools given as range or subnet, ARP mode per machine (none / explicit / auto-protocol), sections and machines in any order, tabs / 4 spaces / CRLF) executed by generate_and_run_sim on virtual time under seeded frame delays and task-order perturbation; distinct = hash of decisions and frames".into(),
-            real_components: vec!["ndl::generate_and_run_sim (parser, network/machine/application generators), SendMessage, Capture/CapFactory, Udp, Ipv4, Arp, Pci, Network, run_internet".into()],
+            rule: "one run = a generated runnable description (1..2 networks with range/ip pools, 1..3 capture machines - counted captures in one factory, or one message-type capture - and 1..4 send_message machines with counts 1..5 wired by name or by address, a quarter of them through a forward machine; one description in eight is a ping_pong pair wired by name or address whose 255 datagrams must appear in order; pools given as range or subnet, ARP mode per machine (none / explicit / auto-protocol), sections and machines in any order, tabs / 4 spaces / CRLF) executed by generate_and_run_sim on virtual time under seeded frame delays and task-order perturbation; distinct = hash of decisions and frames".into(),
+            real_components: vec!["ndl::generate_and_run_sim (parser, network/machine/application generators), SendMessage, Capture/CapFactory, Forward, PingPong, Udp, Ipv4, Arp, Pci, Network, run_internet".into()],
             stub_components: vec![],
             fault_kinds: vec!["frame delay".into(), "task-order perturbation".into()],
-            assumptions: vec!["no loss: the statement promises arrival".into(), "ping_pong is covered by the parse clause only".into()],
+            assumptions: vec!["no loss: the statement promises arrival".into(), "a ping_pong pair is a description of its own (its end of run would cut the captures short)".into()],
         }
     }
 }
